@@ -1,7 +1,7 @@
 (* Single entry point of the extracted model runner: (tag arg) -> result. *)
 From Coq Require Import List NArith ZArith Bool String.
 Import ListNotations.
-From Indi Require Import Base.Sx Msg.Equality Router.Run Driver.SwitchRun.
+From Indi Require Import Base.Sx Msg.Equality Router.Run Driver.SwitchRun Xml.Lex Msg.Run.
 
 Definition dispatch (x : sx) : sx :=
   match x with
@@ -9,6 +9,12 @@ Definition dispatch (x : sx) : sx :=
       if str_eqb t (s2l "eq") then run_eq arg
       else if str_eqb t (s2l "router") then run_router arg
       else if str_eqb t (s2l "switch") then run_switch arg
+      else if str_eqb t (s2l "xml") then run_xml arg
+      else if str_eqb t (s2l "fromxml") then run_fromxml arg
+      else if str_eqb t (s2l "fromstring") then run_fromstring arg
+      else if str_eqb t (s2l "tostring") then run_tostring arg
+      else if str_eqb t (s2l "print") then run_print arg
+      else if str_eqb t (s2l "codec") then run_codec arg
       else tag "UNKNOWN-ENTRY"
   | _ => bad_input
   end.
